@@ -113,9 +113,12 @@ def harnesses(tier, seed):
             if "rename" in k or "reorder" in k or "drop" in k:
                 # prefer writers in which the affected named type is also used by reference
                 pref = [i for i in cand if ps[i][0] in ("ref_after_def", "ns_inherit")]
+                if "rename" in k and pref:
+                    chosen.extend(pref)  # every rename of a type that is (or contains types) used by reference
+                    continue
                 cand = pref or cand
             chosen.append(rng.choice(cand))
-        idxs = sorted(set(chosen))[:96]
+        idxs = sorted(set(chosen))[:128]
     hs = []
     for i in idxs:
         c = case(i, th)
